@@ -163,9 +163,19 @@ def opMisc (op : String) (j : Json) : Option (R Json) :=
       let sfx ← match optField j "suffixes" with
         | none => pure none
         | some _ => do pure (some (← strList j "suffixes"))
-      let out := multimerge (← bool j "outer") sfx tables
-      pure (Json.mkObj [("cols", jList jStr out.cols),
-        ("rows", jList (fun r => Json.arr #[jStr r.1, jList (jOpt jStr) r.2]) out.rows)])
+      let enc := fun (out : KTable (List Char) (List Char)) => Json.mkObj [("cols", jList jStr out.cols),
+        ("rows", jList (fun r => Json.arr #[jStr r.1, jList (jOpt jStr) r.2]) out.rows)]
+      match optField j "how" with
+      | some (.str h) => do
+          -- the code's own shape: a fold of pairwise joins, for every `how`
+          let how ← match h with
+            | "outer" => pure JoinHow.outer | "inner" => pure JoinHow.inner
+            | "left" => pure JoinHow.left | "right" => pure JoinHow.right
+            | _ => throw "how: outer | inner | left | right"
+          match multimergeHow how sfx tables with
+          | some out => pure (enc out)
+          | none => throw "multimerge of an empty list"
+      | _ => pure (enc (multimerge (← bool j "outer") sfx tables))
   | "split_matrix" => some do
       pure (jList (jList jInt) (splitMatrix (← intMatrix j "lower") (← intMatrix j "upper") (← natList j "ind")))
   | _ => none
